@@ -2,7 +2,7 @@
    [norm] is aioing.normalizeHost (the OS resolver): an arbitrary function in every theorem. *)
 From Coq Require Import List ZArith Bool.
 Import ListNotations.
-Require Import V.C34.Model V.C34.Proofs.
+Require Import V.C34.Model V.C34.Proofs V.C34.Grammar.
 Open Scope Z_scope.
 
 (* Where the request is reissued: scheme, port (default 443/80 by scheme), path ('/' when
@@ -86,6 +86,38 @@ Theorem redirects_are_not_delivered : forall rs p,
   end.
 Proof. exact service_all_redirects. Qed.
 Print Assumptions redirects_are_not_delivered.
+
+(* On Location STRINGS.  An absolute Location scheme://host[:port][/path][?query] (any scheme of
+   scheme characters starting with a letter, any host without ':/?#', any path that is empty or
+   starts with '/', any query without '#') is reissued to exactly its own scheme (https iff the
+   lower-cased scheme is "https"), host address, port (default 443/80), path ('/' if empty) and
+   query. *)
+Theorem redirect_absolute_location : forall norm cur sch host ps path q t,
+  wf_scheme sch -> host <> [] -> no [COLON; SLASH; QUEST; HASH] host ->
+  (forall p, ps = Some p -> no [SLASH; QUEST; HASH] p) -> wf_path path ->
+  (forall x, q = Some x -> no [HASH] x) ->
+  redirect norm cur (render_abs sch host ps path q) = Ok t ->
+  t_https t = str_eqb (lower_str sch) HTTPS /\
+  norm (t_host t) = norm (lower_str host) /\
+  t_port t = match (match ps with Some p => parse_port p | None => None end) with
+             | Some n => n
+             | None => if str_eqb (lower_str sch) HTTPS then 443 else 80
+             end /\
+  t_path t = match path with [] => [SLASH] | _ => path end /\
+  t_query t = match q with Some x => x | None => [] end.
+Proof. exact redirect_abs. Qed.
+Print Assumptions redirect_absolute_location.
+
+(* A path reference path[?query] (no ':' '?' '#' in the path, not starting with "//") is always
+   followed, on the same connection, to the same scheme, host and port. *)
+Theorem redirect_relative_location : forall norm cur path q,
+  no [COLON; QUEST; HASH] path -> starts_slashslash path = false ->
+  (forall x, q = Some x -> no [HASH; COLON] x) ->
+  exists t, redirect norm cur (render_rel path q) = Ok t /\
+            t_https t = o_https cur /\ t_host t = o_host cur /\ t_port t = o_port cur /\
+            t_reconnect t = false /\ t_query t = match q with Some x => x | None => [] end.
+Proof. exact redirect_rel. Qed.
+Print Assumptions redirect_relative_location.
 
 (* non-vacuity: urlsplit/resolve/decide on concrete Locations *)
 Definition s (l : list Z) := l.
